@@ -382,7 +382,9 @@ var mutators = []mutator{
 				return true
 			}
 		}
-		site := m.pickSel(func(s selSite) bool { return s.Sel.Kind == kField && len(s.Sel.Args) == 0 && !uniqueResp(m.d, s.Sel) == false })
+		site := m.pickSel(func(s selSite) bool {
+			return s.Sel.Kind == kField && len(s.Sel.Args) == 0 && !uniqueResp(m.d, s.Sel) == false
+		})
 		if site == nil {
 			return false
 		}
@@ -586,6 +588,27 @@ var mutators = []mutator{
 			return true
 		}
 		m.insert(s, aliased("iv", "arg", gArg{Name: "x", Val: rng.Pick(m.r, []string{`"1"`, "1.5", "true", "RED", "[1, 2]", "{a: 1}", "2147483648", "-2147483649"})}))
+		return true
+	}},
+	{"ill-typed-nested-list", "5.6.1", func(m *mctx) bool {
+		// an item of a list literal is never coerced to a list, whatever wrappers its type has
+		s := m.pickSet(func(s *gSet) bool { return m.visibleField(s, "lists") })
+		if s == nil {
+			return false
+		}
+		bad := rng.Pick(m.r, []gArg{
+			{Name: "g1", Val: `[1, 2]`}, {Name: "g1", Val: `[[1], 2]`}, {Name: "g2", Val: `[1, 2]`}, {Name: "g2", Val: `[[1], 2]`},
+			{Name: "g2", Val: `[null]`}, {Name: "g3", Val: `[[null]]`}, {Name: "g3", Val: `[1]`}, {Name: "g4", Val: `[3]`}, {Name: "g4", Val: `[[1], null]`},
+			{Name: "g4", Val: `[[1, null]]`}, {Name: "g5", Val: `[1]`}, {Name: "g5", Val: `null`}, {Name: "g6", Val: `[[1]]`}, {Name: "g6", Val: `[1]`},
+			{Name: "g6", Val: `[[[1], 2]]`}, {Name: "g7", Val: `[[1]]`}, {Name: "g7", Val: `[[[1]], [2]]`}, {Name: "g7", Val: `[null]`}, {Name: "g7", Val: `[[null]]`},
+			{Name: "g8", Val: `[1, 2]`}, {Name: "g8", Val: `[[1], 2]`}, {Name: "g8", Val: `[null]`}, {Name: "g2", Val: `[[1], "x"]`}, {Name: "g6", Val: `[[[1, "x"]]]`},
+		})
+		if bad.Name != "g5" {
+			// g5 is required
+			m.insert(s, aliased("nl", "lists", bad, gArg{Name: "g5", Val: "[[1]]"}))
+		} else {
+			m.insert(s, aliased("nl", "lists", bad))
+		}
 		return true
 	}},
 	{"unknown-input-field", "5.6.2", func(m *mctx) bool {
